@@ -229,6 +229,9 @@ func (s *Sim) crashPoint(inc string) string {
 	if ca == nil || s.crashDone || s.crashInc == "" || inc != s.crashInc {
 		return ""
 	}
+	if ca.Mode == "kill_master_after_replica_mutation" {
+		return "" // handled in deliverSQL, where the statement is known
+	}
 	s.crashCount++
 	if s.crashCount < ca.N {
 		return ""
@@ -283,6 +286,27 @@ func (s *Sim) crashPoint(inc string) string {
 }
 
 func (s *Sim) deliverSQL(c *call, flt string) {
+	// the recorded master's MySQL dies right when the managing incarnation sends its N-th
+	// mutating statement to another server (i.e. in the middle of an update it has decided on)
+	if ca := s.spec.CrashAt; ca != nil && ca.Mode == "kill_master_after_replica_mutation" && !s.crashDone && s.crashInc == c.src && c.kind != callSQLDial && isMutating(c.query) {
+		if master := s.recordedMaster(); c.dst != master {
+			s.crashCount++
+			if s.crashCount >= ca.N {
+				s.crashDone = true
+				s.stats.Probes["crash_point_fired"]++
+				s.mon.onFault("crash_at", c.src)
+				if sv := s.mysql.servers[master]; sv != nil {
+					s.trace("CRASHPOINT kill-master-mysql-after-replica-mutation %s n=%d [%s -> %s]", c.src, ca.N, c.query, c.dst)
+					s.stats.Faults["master_mysql_killed_mid_update"]++
+					s.mysql.crashServer(sv, 0)
+					sv.lastWorldChange = s.now()
+					if ca.RestartMs > 0 {
+						s.after(ms(ca.RestartMs), "restart-master-mysql", func() { s.mysql.startServer(sv) })
+					}
+				}
+			}
+		}
+	}
 	switch s.crashPoint(c.src) {
 	case "before":
 		flt = "crash_before"
